@@ -249,6 +249,81 @@ Proof.
   rewrite copy_ctor_ok by exact H. cbn [rbind]. rewrite E. rewrite opt_deref_ok by exact E. reflexivity.
 Qed.
 
+(** ** the ref-qualified overloads *)
+Lemma abso_engaged : forall s, has_value s = true -> abso s = Some (val s).
+Proof. intros s H. unfold abso. rewrite H. reflexivity. Qed.
+Lemma abso_disengaged : forall s, has_value s = false -> abso s = None.
+Proof. intros s H. unfold abso. rewrite H. reflexivity. Qed.
+Lemma abso_steal : forall T s, has_value s = true -> abso (steal T s) = Some (moved_val T (val s)).
+Proof. intros T s H. unfold abso, steal, has_value in *. cbn [idx val]. rewrite H. reflexivity. Qed.
+
+Definition abs_oq (m : option Z * option qual * var) := (fst (fst m), snd (fst m), abso (snd m)).
+Definition abs_pq {A} (m : A * var) := (fst m, abso (snd m)).
+
+Theorem opt_and_then_q_ok : forall T q s f byval, wfo s ->
+  exists m, opt_and_then_q T q s f byval = Ok m /\ abs_oq m = so_and_then_q T q (abso s) f byval /\ wfo (snd m).
+Proof.
+  intros T q s f byval H. unfold opt_and_then_q, so_and_then_q, abs_oq.
+  destruct (has_value s) eqn:E.
+  - rewrite (opt_deref_ok s E). cbn [rbind]. rewrite (abso_engaged s E).
+    destruct q; (eexists; split; [reflexivity|]); cbn [fst snd is_rv andb];
+      try (rewrite (abso_engaged s E); split; [reflexivity|exact H]).
+    destruct byval; cbn [fst snd].
+    + rewrite abso_steal by exact E. split; [reflexivity|exact H].
+    + rewrite (abso_engaged s E). split; [reflexivity|exact H].
+  - rewrite (abso_disengaged s E).
+    destruct q; (eexists; split; [reflexivity|]); cbn [fst snd]; rewrite (abso_disengaged s E);
+      (split; [reflexivity|exact H]).
+Qed.
+
+Theorem opt_or_else_q_ok : forall T q s g, wfo s ->
+  exists m, opt_or_else_q T q s g = Ok m /\ abs_pq m = so_or_else_q T q (abso s) g /\ wfo (snd m).
+Proof.
+  intros T q s g H. unfold opt_or_else_q, so_or_else_q, abs_pq.
+  assert (Hc : forall q', is_rv q' = false ->
+     exists m, rbind (opt_or_else T s g) (fun r => Ok (r, s)) = Ok m
+       /\ (fst m, abso (snd m)) = match abso s with Some v => (Some v, if is_rv q' then Some (moved_val T v) else abso s) | None => (g, None) end
+       /\ wfo (snd m)).
+  { intros q' Hq. rewrite (opt_or_else_ok T s g H). cbn [rbind]. eexists; split; [reflexivity|]. cbn [fst snd].
+    rewrite Hq. unfold so_or_else. destruct (abso s); (split; [reflexivity|exact H]). }
+  destruct q; try (apply Hc; reflexivity).
+  destruct (has_value s) eqn:E.
+  - rewrite move_ctor_ok by (apply wfo_wfv; exact H). cbn [rbind]. rewrite E.
+    rewrite (opt_deref_ok s E). cbn [rbind]. eexists; split; [reflexivity|]. cbn [fst snd is_rv].
+    rewrite abso_moved by exact H. rewrite (abso_engaged s E). cbn [so_moved].
+    split; [reflexivity|apply wfo_moved; exact H].
+  - eexists; split; [reflexivity|]. cbn [fst snd]. rewrite (abso_disengaged s E). split; [reflexivity|exact H].
+Qed.
+
+Theorem opt_value_or_q_ok : forall T q s d, wfo s ->
+  exists m, opt_value_or_q T q s d = Ok m /\ abs_pq m = so_value_or_q T q (abso s) d /\ wfo (snd m).
+Proof.
+  intros T q s d H. unfold opt_value_or_q, so_value_or_q, abs_pq.
+  assert (Hc : forall q', is_rv q' = false ->
+     exists m, rbind (opt_value_or s d) (fun v => Ok (v, s)) = Ok m
+       /\ (fst m, abso (snd m)) = match abso s with Some v => (v, if is_rv q' then Some (moved_val T v) else abso s) | None => (d, None) end
+       /\ wfo (snd m)).
+  { intros q' Hq. rewrite (opt_value_or_ok s d). cbn [rbind]. eexists; split; [reflexivity|]. cbn [fst snd].
+    rewrite Hq. unfold so_value_or. destruct (abso s); (split; [reflexivity|exact H]). }
+  destruct q; try (apply Hc; reflexivity).
+  destruct (has_value s) eqn:E.
+  - rewrite (opt_deref_ok s E). cbn [rbind]. eexists; split; [reflexivity|]. cbn [fst snd is_rv].
+    rewrite abso_steal by exact E. rewrite (abso_engaged s E). split; [reflexivity|exact H].
+  - eexists; split; [reflexivity|]. cbn [fst snd]. rewrite (abso_disengaged s E). split; [reflexivity|exact H].
+Qed.
+
+Theorem opt_take_q_ok : forall T q s r, wfo s -> so_take_q T q (abso s) = Some r ->
+  exists m, opt_take_q T q s = Ok m /\ abs_pq m = r /\ wfo (snd m).
+Proof.
+  intros T q s r H Hs. unfold opt_take_q, so_take_q, abs_pq in *.
+  destruct (has_value s) eqn:E.
+  - rewrite (abso_engaged s E) in Hs. inversion Hs; subst r. rewrite (opt_deref_ok s E). cbn [rbind].
+    eexists; split; [reflexivity|]. cbn [fst snd]. destruct (is_rv q).
+    + rewrite abso_steal by exact E. split; [reflexivity|exact H].
+    + rewrite (abso_engaged s E). split; [reflexivity|exact H].
+  - rewrite (abso_disengaged s E) in Hs. discriminate Hs.
+Qed.
+
 Ltac deref_both l r El Er :=
   rewrite (opt_deref_ok l El); cbn [rbind]; rewrite (opt_deref_ok r Er); cbn [rbind].
 
